@@ -131,95 +131,95 @@ def decision_table(idx, rule):
 
 
 def decision_table_of_function(idx, rule, fi):
-    """decision table of the if/elif/match (or early-return) structure of `fi`: the Auto rule itself or the helper it delegates to"""
+    """decision table of `fi` (the Auto rule itself, or the helper it delegates the choice to): the function body is executed once per
+    consistent truth assignment of its atomic conditions -- if/elif/else at any depth, early returns, match statements and conditional
+    expressions all select the path -- and the algorithm classes constructed along the path are the row"""
     d = Decision(rule)
-    names = {}
     body = [s for s in fi.node.body if not (isinstance(s, ast.Expr) and isinstance(s.value, ast.Constant))]
-    branches = None  # list of (test expr or ('case', subject, pattern), stmts)
-    for st in body:
-        if isinstance(st, ast.Assign) and len(st.targets) == 1:
-            t = st.targets[0]
-            if isinstance(t, ast.Name):
-                names[t.id] = st.value
-            elif isinstance(t, ast.Tuple) and isinstance(st.value, ast.Tuple) and len(t.elts) == len(st.value.elts):
-                for a, b in zip(t.elts, st.value.elts):
-                    if isinstance(a, ast.Name):
-                        names[a.id] = b
-        elif isinstance(st, ast.If) and branches is None:
-            branches = []
-            cur = st
-            while True:
-                branches.append((cur.test, cur.body))
-                if len(cur.orelse) == 1 and isinstance(cur.orelse[0], ast.If):
-                    cur = cur.orelse[0]
-                else:
-                    if cur.orelse:
-                        branches.append((ast.Constant(True), cur.orelse))
-                    elif all(any(isinstance(x, (ast.Return, ast.Raise)) for x in b_[-1:]) for _t, b_ in branches):
-                        # every branch leaves the function: the statements after the if are the final else
-                        rest = body[body.index(st) + 1:]
-                        if rest:
-                            branches.append((ast.Constant(True), rest))
-                    break
-        elif isinstance(st, ast.Match) and branches is None:
-            branches = []
-            for case in st.cases:
-                branches.append((("case", st.subject, case.pattern), case.body))
-    if branches is None:
-        # `if T: ... return X` followed by more statements: the rest is the else branch
-        # (handled below); or the choice lives in a helper the rule calls: tabulate the helper instead
+
+    def own_nodes(stmts):
+        for st in stmts:
+            stack = [st]
+            while stack:
+                n = stack.pop()
+                if isinstance(n, (ast.FunctionDef, ast.AsyncFunctionDef, ast.ClassDef, ast.Lambda)):
+                    continue
+                yield n
+                stack.extend(ast.iter_child_nodes(n))
+
+    deciders = [n for n in own_nodes(body) if isinstance(n, (ast.If, ast.Match, ast.IfExp))]
+    if not any(isinstance(n, (ast.If, ast.Match)) for n in deciders) and not any(isinstance(n, ast.IfExp) for n in deciders):
+        # the choice lives in a helper the rule calls: tabulate the helper instead
         for st in body:
             for c in [x for x in ast.walk(st) if isinstance(x, ast.Call)]:
                 r = idx.resolve_expr(fi.module, c.func, fi)
                 if r is not None and r.kind == "funcs" and getattr(r.val[-1], "rule", None) is None and r.val[-1].module is fi.module \
-                        and any(isinstance(x, (ast.If, ast.Match)) for x in r.val[-1].node.body):
+                        and any(isinstance(x, (ast.If, ast.Match, ast.IfExp)) for x in ast.walk(r.val[-1].node)):
                     sub = decision_table_of_function(idx, rule, r.val[-1])
                     if not sub.problems:
                         return sub
         d.problems.append("no if/elif or match statement found in the Auto rule")
         return d
-    # parameter names assigned in the branches are not atoms
-    param_like = {p[0] for p in rule.params}
-    names = {k: v for k, v in names.items() if k not in param_like or not _is_ctor(idx, fi, v)}
+    names = {}
+    for n in own_nodes(body):
+        if isinstance(n, ast.Assign) and len(n.targets) == 1:
+            t = n.targets[0]
+            if isinstance(t, ast.Name):
+                names.setdefault(t.id, []).append(n.value)
+            elif isinstance(t, ast.Tuple) and isinstance(n.value, ast.Tuple) and len(t.elts) == len(n.value.elts):
+                for a, b in zip(t.elts, n.value.elts):
+                    if isinstance(a, ast.Name):
+                        names.setdefault(a.id, []).append(b)
+    # only singly-bound names stand for their value; parameter names re-bound to the chosen algorithm are not conditions
+    param_like = {p[0] for p in rule.params} | set(fi.params)
+    names = {k: v[0] for k, v in names.items() if len(v) == 1 and not (k in param_like and _is_ctor(idx, fi, v[0]))}
     atoms = []
-    for test, _ in branches:
-        if isinstance(test, tuple):
-            _atoms_of(test[1], names, atoms)
-        else:
-            _atoms_of(test, names, atoms)
-    # conditions that select what is constructed INSIDE a branch (`Eigh() if SA else Eig()`) are atoms as well
-    for _test, stmts in branches:
-        local = {}
-        for st in stmts:
-            if isinstance(st, ast.Assign) and len(st.targets) == 1 and isinstance(st.targets[0], ast.Name):
-                local[st.targets[0].id] = st.value
-            for n in ast.walk(st):
-                if isinstance(n, ast.IfExp):
-                    _atoms_of(n.test, names, atoms)
+    for n in deciders:
+        _atoms_of(n.subject if isinstance(n, ast.Match) else n.test, names, atoms)
     d.atoms = atoms
     if len(atoms) > 6:
         d.problems.append(f"{len(atoms)} atomic conditions: too many to tabulate")
         return d
+
+    class Unreachable(Exception):
+        pass
+
+    def run(stmts, ev, path):
+        """True when the path left the function"""
+        for st in stmts:
+            if isinstance(st, ast.If):
+                if run(st.body if ev.val(st.test) else st.orelse, ev, path):
+                    return True
+            elif isinstance(st, ast.Match):
+                subj = ev.val(st.subject)
+                for case in st.cases:
+                    if _match(case.pattern, subj) and (case.guard is None or ev.val(case.guard)):
+                        if run(case.body, ev, path):
+                            return True
+                        break
+            elif isinstance(st, ast.Assert) and isinstance(st.test, ast.Constant) and st.test.value is False:
+                raise Unreachable()
+            else:
+                path.append(st)
+                if isinstance(st, (ast.Return, ast.Raise)):
+                    return True
+        return False
+
     for vals in itertools.product([True, False], repeat=len(atoms)):
         asg = dict(zip(atoms, vals))
         if not _consistent(idx, fi, asg):
             continue
         ev = _Eval(idx, fi, names, asg)
-        chosen = None
-        for test, stmts in branches:
-            if isinstance(test, tuple):
-                subj = ev.val(test[1])
-                if _match(test[2], subj):
-                    chosen = stmts
-                    break
-            elif ev.val(test):
-                chosen = stmts
-                break
-        if chosen is None:
-            d.rows.append((asg, None))
-        else:
-            asserts_false = any(isinstance(s, ast.Assert) and isinstance(s.test, ast.Constant) and s.test.value is False for s in chosen)
-            d.rows.append((asg, "UNREACHABLE" if asserts_false else _constructed(idx, fi, chosen, ev)))
+        path = []
+        try:
+            run(body, ev, path)
+        except Unreachable:
+            d.rows.append((asg, "UNREACHABLE"))
+            continue
+        except KeyError as e:
+            d.problems.append(f"a branch condition is not a combination of the tabulated atoms: {e}")
+            return d
+        d.rows.append((asg, _constructed(idx, fi, path, ev)))
     return d
 
 
